@@ -102,7 +102,13 @@ func main() {
 	}
 	a := vlib.ParseArgs()
 	if a.Replay != "" {
-		fmt.Println("C11 replays name a (function, field) pair; re-run `tools/vcheck C11` to re-derive it from the source")
+		var rp struct {
+			Case walkCase `json:"case"`
+		}
+		if b, err := os.ReadFile(a.Replay); err == nil && json.Unmarshal(b, &rp) == nil && rp.Case.What == "walk" {
+			os.Exit(replayWalk(rp.Case))
+		}
+		fmt.Println("this C11 replay names a (function, field) pair or a race report; re-run `tools/vcheck C11` to re-derive it from the source")
 		os.Exit(1)
 	}
 	if err := xlate.SelfTestLock(); err != nil {
@@ -205,6 +211,10 @@ func main() {
 		out.Violate("setsource-on-published-metric:"+bad, "SetSource is called on a metric that was not created by NewMetric in the same function: "+bad,
 			map[string]any{"what": "setsource", "where": bad})
 	}
+	// walks over the real store overlapped with (re)loads, ordered by channels
+	tw := time.Now()
+	walkCases(a, out, seenClass)
+	out.Extra["walks"] = fmt.Sprintf("%d walk cases in %d ms", out.Len()-len(allIR), time.Since(tw).Milliseconds())
 	out.Extra["sites"] = len(x.Sites)
 	if a.Out != "" {
 		vlib.WriteJSON(filepath.Join(a.Out, "lockir.json"), map[string]any{"ir": allIR, "sites": x.Sites})
@@ -229,8 +239,15 @@ func main() {
 	if a.Thorough() {
 		dur = "20s"
 	}
-	races, note := raceStress(a, dur)
+	races, shown, note := raceStress(a, dur)
 	out.Extra["race_stress"] = note
+	for _, f := range shown {
+		out.Count("reload scenario " + f.class)
+		if !seenClass[f.class] {
+			seenClass[f.class] = true
+			out.Violate(f.class, f.what, map[string]any{"what": "reload-scenario", "detail": f.what})
+		}
+	}
 	for _, r := range races {
 		cl := ""
 		for _, pos := range r.Pos {
@@ -266,7 +283,7 @@ func main() {
 				map[string]any{"what": "race-report", "fns": r.Fns, "pos": r.Pos, "report": r.Text})
 		}
 	}
-	out.Flush("an entry function is non-trivial if its IR contains an access to a lock-guarded or atomic field", true)
+	out.Flush("an entry function is non-trivial if its IR contains an access to a lock-guarded or atomic field; a walk case is non-trivial if a program that is in the store is reloaded while the parked walker still has metrics of that name to visit", true)
 }
 
 // setSourceOnPublished lists calls x.SetSource(...) whose receiver is not a
@@ -456,7 +473,7 @@ type raceRep struct {
 
 var frameRe = regexp.MustCompile(`(?m)^\s*(github\.com/google/mtail/internal/(?:metrics|exporter|runtime)[^\n]*)\n\s+(\S+?):(\d+)`)
 
-func raceStress(a vlib.Args, dur string) ([]raceRep, string) {
+func raceStress(a vlib.Args, dur string) ([]raceRep, []ftFinding, string) {
 	verif := os.Getenv("VERIF_DIR")
 	if verif == "" {
 		verif = "/verif"
@@ -465,11 +482,11 @@ func raceStress(a vlib.Args, dur string) ([]raceRep, string) {
 	h := sha1.Sum([]byte(repo))
 	ov := filepath.Join(verif, "build", "overlay-"+hex.EncodeToString(h[:])[:8]+".json")
 	if _, err := os.Stat(ov); err != nil {
-		return nil, "skipped: no overlay file " + ov
+		return nil, nil, "skipped: no overlay file " + ov
 	}
 	tmp, err := os.MkdirTemp("", "c11race")
 	if err != nil {
-		return nil, "skipped: " + err.Error()
+		return nil, nil, "skipped: " + err.Error()
 	}
 	defer os.RemoveAll(tmp)
 	// a stable output path lets `go build` skip the (slow, -race) link when nothing changed
@@ -479,10 +496,10 @@ func raceStress(a vlib.Args, dur string) ([]raceRep, string) {
 	for _, f := range []string{"go.mod", "go.sum"} {
 		b, err := os.ReadFile(filepath.Join(repo, f))
 		if err != nil {
-			return nil, "skipped: " + err.Error()
+			return nil, nil, "skipped: " + err.Error()
 		}
 		if err := os.WriteFile(filepath.Join(tmp, f), b, 0o644); err != nil {
-			return nil, "skipped: " + err.Error()
+			return nil, nil, "skipped: " + err.Error()
 		}
 	}
 	cmd := exec.Command("go", "build", "-race", "-tags", "verif", "-overlay", ov, "-modfile="+filepath.Join(tmp, "go.mod"),
@@ -494,11 +511,12 @@ func raceStress(a vlib.Args, dur string) ([]raceRep, string) {
 		if len(s) > 400 {
 			s = s[len(s)-400:]
 		}
-		return nil, "race build failed (search aid unavailable): " + s
+		return nil, nil, "race build failed (search aid unavailable): " + s
 	}
 	var reps []raceRep
+	var shown []ftFinding
 	note := ""
-	for _, sc := range []string{"store", "runtime", "push"} {
+	for _, sc := range []string{"store", "runtime", "push", "reload"} {
 		d := dur
 		if sc != "store" {
 			d = "2s"
@@ -530,6 +548,15 @@ func raceStress(a vlib.Args, dur string) ([]raceRep, string) {
 			}
 			reps = append(reps, raceRep{Fns: []string{fn}, Pos: []string{pos},
 				Text: "scenario " + sc + ": " + first + " at " + pos + "\n" + msg[:min(len(msg), 1200)]})
+		}
+		var rl struct {
+			Bad []struct{ Fn, What string }
+		}
+		if sc == "reload" && json.Unmarshal(outb, &rl) == nil {
+			// what an export showed while programs sharing a metric name were reloaded
+			for _, b := range rl.Bad {
+				shown = append(shown, ftFinding{"export-shows-content-never-held:" + b.Fn, b.What})
+			}
 		}
 		var sum struct{ Increments, Total int64 }
 		if sc == "store" && json.Unmarshal(outb, &sum) == nil && sum.Increments != sum.Total {
@@ -572,5 +599,5 @@ func raceStress(a vlib.Args, dur string) ([]raceRep, string) {
 			}
 		}
 	}
-	return reps, fmt.Sprintf("%s; %d race reports", note, len(reps))
+	return reps, shown, fmt.Sprintf("%s; %d race reports", note, len(reps))
 }
